@@ -331,9 +331,10 @@ def do_check(a):
         b_eval += r.get("evaluations", 0)
         b_rej += r.get("rejected", 0)
         b_clauses += r.get("clauses", 0)
-        if not r.get("error") and (r.get("evaluations", 0) == 0 or r.get("clauses", 0) == 0):
-            # vacuity guard of the bounded tier: a case whose samples are all rejected by the precondition (or
-            # that reaches no clause) has checked nothing
+        if not r.get("error") and (r.get("evaluations", 0) == 0 or r.get("clauses", 0) == 0) and level_of.get(r["proof"]) == "B":
+            # vacuity guard of the bounded tier, for proofs whose deciding part it is (level B): a case whose samples are
+            # all rejected by the precondition (or that reaches no clause) has checked nothing.  For proved cases the
+            # bounded run is a supplement and vacuity is guarded by the cover check of the symbolic tier.
             undecided.append(f"{prop}/{r['proof']}[{label.get((r['proof'], r['case_index']))}]: bounded tier evaluated no contract "
                              f"clause ({r.get('rejected', 0)} samples rejected by the precondition)")
         for f in r.get("failures", []):
